@@ -28,6 +28,9 @@ var pkgMaps = map[string]map[string]string{
 		"Float64": "RandFloat64", "Float32": "RandFloat32", "Perm": "RandPerm", "Shuffle": "RandShuffle", "Read": "RandRead",
 	},
 	"runtime": {"Gosched": "Gosched"},
+	// file-system operations are scheduling points (the calls themselves stay real)
+	"os":            {"Create": "OsCreate", "Open": "OsOpen", "OpenFile": "OsOpenFile", "Remove": "OsRemove", "RemoveAll": "OsRemoveAll", "Rename": "OsRename", "Stat": "OsStat"},
+	"path/filepath": {"Glob": "FilepathGlob"},
 }
 
 type rewriter struct {
